@@ -70,6 +70,9 @@ def scenarios(prop, quick, seed):
                       invall=2 + j % 3, policy="free", writers=3 + j % 2, ops=12 + j % 6, keys=2 + j % 3)
         elif prop == "C07":
             sc = dict(base, size="count", keys=1 + j % 3, max=3 + j % 4, smallbuf=0, stale=0, invall=[0, 1][j % 2], writers=2 + j % 3, ops=4 + j % 5)
+            if j % 3 != 0:
+                # weighted, every key at its heaviest fits: a light total and a heavy entry whose delete event may overtake its add event
+                sc.update(size="weight", wt=[1, 5, 2, 7][: 2 + j % 3], max=3 * 7 + j % 4, points="pub")
         elif prop == "C04":
             kind = j % 3
             if kind == 0:
